@@ -36,3 +36,13 @@ package authip
 //@     modifies mapof(set)
 //@     invariant 0 <= rangeindex + 1 && rangeindex + 1 <= len(auth.IpList) && set != nil && fresh(set)
 //@     invariant forall s string :: has(set, s) == (exists i int :: 0 <= i && i <= rangeindex && auth.IpList[i] == s)
+
+// The watcher goroutine (the function literal of watchYml): every event for the whitelist file that says written, created
+// (a rewrite by rename arrives as Create of the watched name) or renamed reloads the file before the next event is taken.
+//@ func AuthIp.watchYml$1
+//@   props C18
+//@   requires a != nil && watch != nil
+//@   label R at call AuthIp.parseAuthIp#0
+//@   loop 0
+//@     invariant a != nil && watch != nil
+//@     backedge[reload@C18] (ev.Name == a.name && ((ev.Op & fsnotify.Write) == fsnotify.Write || (ev.Op & fsnotify.Create) == fsnotify.Create || (ev.Op & fsnotify.Rename) == fsnotify.Rename)) ==> reached(R)
